@@ -64,18 +64,39 @@ pub fn sfs_fifo(ctx: &Ctx, args: &[&str], bytes: &[u8], first: usize, fifo: &str
     let child = cmd.spawn().ok()?;
     let data = bytes.to_vec();
     let first = first.min(data.len());
+    // The pipe holds 64 KiB; a reader that gives up early (or never opens the path) must not leave the writer blocked for
+    // ever: writes are non-blocking and stop as soon as the child has exited.
+    {
+        use std::os::fd::AsRawFd;
+        unsafe {
+            let fl = libc::fcntl(w.as_raw_fd(), libc::F_GETFL);
+            libc::fcntl(w.as_raw_fd(), libc::F_SETFL, fl | libc::O_NONBLOCK);
+        }
+    }
+    let gone = std::sync::Arc::new(std::sync::atomic::AtomicBool::new(false));
+    let gone_w = gone.clone();
     let writer = std::thread::spawn(move || {
-        let _ = w.write_all(&data[..first]);
-        let _ = w.flush();
+        let mut put = |part: &[u8]| {
+            let mut off = 0;
+            while off < part.len() && !gone_w.load(std::sync::atomic::Ordering::Relaxed) {
+                match w.write(&part[off..]) {
+                    Ok(n) => off += n,
+                    Err(e) if e.kind() == std::io::ErrorKind::WouldBlock || e.kind() == std::io::ErrorKind::Interrupted => std::thread::sleep(std::time::Duration::from_millis(1)),
+                    Err(_) => break,
+                }
+            }
+        };
+        put(&data[..first]);
         if first < data.len() {
             std::thread::sleep(std::time::Duration::from_millis(60));
-            let _ = w.write_all(&data[first..]);
+            put(&data[first..]);
         }
         // give the reader time to have the pipe open before our (last other) handle goes away
         std::thread::sleep(std::time::Duration::from_millis(80));
         drop(w);
     });
     let out = child.wait_with_output().ok()?;
+    gone.store(true, std::sync::atomic::Ordering::Relaxed);
     let _ = writer.join();
     let _ = std::fs::remove_file(fifo);
     Some(Run { code: out.status.code(), stdout: out.stdout, stderr: String::from_utf8_lossy(&out.stderr).into_owned() })
